@@ -821,4 +821,135 @@ theorem loPart_spec (C n dn W D sl sh X cyf Qh' : Nat) (recur : Nat → Nat → 
       omega
     · rw [hsplit _ c2, hXX, c5]; ring
 
+theorem pow_sub_one_mod (n : Nat) (hn : 1 ≤ n) : (B ^ n - 1) % B = B - 1 := by
+  have hB := B_pos
+  obtain ⟨j, rfl⟩ : ∃ j, n = j + 1 := ⟨n - 1, by omega⟩
+  have hP := Bpow_pos j
+  have e : B ^ (j + 1) - 1 = (B ^ j - 1) * B + (B - 1) := by
+    rw [pow_succ]
+    have : (B ^ j - 1) * B + B = B ^ j * B := by
+      calc (B ^ j - 1) * B + B = (B ^ j - 1 + 1) * B := by ring
+        _ = B ^ j * B := by rw [Nat.sub_add_cancel hP]
+    omega
+  rw [e, mod_of_split _ _ _ (by omega)]
+
+/-- dc_divappr_q.c:77-93, the rare case -/
+theorem rare_spec (n W D : Nat) (hn : 2 ≤ n) (hD : D < B ^ (n + 1)) (hnorm : B ^ (n + 1) ≤ 2 * D) (hW : W < D * B ^ n)
+    (hsz : 2 * (n + 2) ≤ B) (hc : D / B ≤ W / B ^ (n + 1)) :
+    (helper3 n (W / B ^ (n - 1) % B) (W / B ^ n) D / B ^ 2 ≥ B / 2 →
+      W < (B ^ n - 2 + 1) * D ∧
+      W / B ^ (n - 1) = tS D (B ^ n - 2) n + (helper3 n (W / B ^ (n - 1) % B) (W / B ^ n) D + D / B ^ (n - 1)) % B ^ 3) ∧
+    (¬ helper3 n (W / B ^ (n - 1) % B) (W / B ^ n) D / B ^ 2 ≥ B / 2 →
+      W / B ^ (n - 1) = tS D (B ^ n - 1) n + helper3 n (W / B ^ (n - 1) % B) (W / B ^ n) D) := by
+  have hB := B_pos
+  have hB2 : 2 ≤ B := by rw [B_eq]; omega
+  have hPn := Bpow_pos n
+  obtain ⟨j, hj⟩ : ∃ j, n = j + 1 := ⟨n - 1, by omega⟩
+  have hj' : n - 1 = j := by omega
+  have eXB : W / B ^ (n - 1) / B = W / B ^ n := by rw [div_pow_succ']; congr 2; omega
+  have hXlt : W / B ^ (n - 1) < B * D := by
+    rw [Nat.div_lt_iff_lt_mul (Bpow_pos _)]
+    have e0 : B ^ n = B ^ (n - 1) * B := by rw [← pow_succ]; congr 1; omega
+    have : B * D * B ^ (n - 1) = D * B ^ n := by
+      rw [e0]; ring
+    rw [this]; exact hW
+  have hXB : W / B ^ (n - 1) / B < B ^ (n + 1) := by
+    rw [Nat.div_lt_iff_lt_mul hB]
+    have : B * D ≤ B ^ (n + 1) * B := by
+      have := Nat.mul_le_mul_left B hD.le
+      rw [Nat.mul_comm (B ^ (n + 1))]; exact this
+    omega
+  -- XX ≥ B·D - B·(B-1)
+  have hXge : B * D ≤ W / B ^ (n - 1) + B * B := by
+    have e1 : W / B ^ (n - 1) / B ^ 2 = W / B ^ (n + 1) := by rw [div_pow_add]; congr 2; omega
+    have h1 : B ^ 2 * (W / B ^ (n - 1) / B ^ 2) ≤ W / B ^ (n - 1) := Nat.mul_div_le _ _
+    rw [e1, B2'] at h1
+    have h2 : B * B * (D / B) ≤ B * B * (W / B ^ (n + 1)) := Nat.mul_le_mul_left _ hc
+    have h3 := Nat.div_add_mod D B
+    have h4 := Nat.mod_lt D hB
+    have h5 : B * D = B * B * (D / B) + B * (D % B) := by
+      conv_lhs => rw [← h3]
+      ring
+    have h6 : B * (D % B + 1) ≤ B * B := Nat.mul_le_mul_left _ h4
+    have h7 : B * (D % B + 1) = B * (D % B) + B := by ring
+    omega
+  have hF1 : B ^ 2 ≤ 2 * (D / B ^ (n - 1)) :=
+    half_norm 0 D (B ^ (n - 1)) (Bpow_pos _) (by rw [← pow_add]; rw [show n - 1 + (0 + 2) = n + 1 by omega]; exact hnorm)
+  have hF2 : D / B ^ (n - 1) < B * B := by
+    rw [Nat.div_lt_iff_lt_mul (Bpow_pos _)]
+    have : B * B * B ^ (n - 1) = B ^ (n + 1) := by
+      rw [show n + 1 = 1 + 1 + (n - 1) by omega, pow_add, pow_add, pow_one]
+    rw [this]; exact hD
+  rw [B2'] at hF1
+  have hS := sumd_le (n - 1) D
+  have hnB : (n - 1) * B + 3 * B ≤ B * B := by
+    calc (n - 1) * B + 3 * B = (n - 1 + 3) * B := by ring
+      _ ≤ B * B := Nat.mul_le_mul_right _ (by omega)
+  have hB3 : B * B * 2 ≤ B ^ 3 := by rw [B3']; exact Nat.mul_le_mul_left _ hB2
+  have hB3' : B * B * (B - 1) + B * B = B ^ 3 := by
+    rw [B3']
+    calc B * B * (B - 1) + B * B = B * B * (B - 1 + 1) := by ring
+      _ = B * B * B := by rw [Nat.sub_add_cancel hB]
+  have hsat := tS_sat j D
+  rw [← hj, ← hj'] at hsat
+  obtain ⟨F, hF⟩ : ∃ F, F = D / B ^ (n - 1) := ⟨_, rfl⟩
+  rw [← hF] at hF1 hF2 hsat ⊢
+  rw [← eXB]
+  by_cases hsign : B * D ≤ W / B ^ (n - 1) + F + sumd D (n - 1)
+  · -- non-negative
+    obtain ⟨t, ht⟩ : ∃ t, W / B ^ (n - 1) + F + sumd D (n - 1) + 0 * B ^ 3 = B * D + t :=
+      ⟨W / B ^ (n - 1) + F + sumd D (n - 1) - B * D, by omega⟩
+    have htlt : t < B * B * 2 := by omega
+    obtain ⟨s1, s2⟩ := sat_eq n (W / B ^ (n - 1)) D 0 t (by omega) hD hXB (by rw [← hF]; exact ht) (by omega)
+    rw [s1]
+    have htd : t / B ^ 2 < 2 := by rw [Nat.div_lt_iff_lt_mul (Bpow_pos 2), B2']; omega
+    have hBh : 2 ≤ B / 2 := by rw [B_eq]; omega
+    constructor
+    · intro h; exfalso; omega
+    · intro _; omega
+  · -- negative
+    obtain ⟨sg, hsg⟩ : ∃ sg, W / B ^ (n - 1) + F + sumd D (n - 1) + sg = B * D :=
+      ⟨B * D - (W / B ^ (n - 1) + F + sumd D (n - 1)), by omega⟩
+    have hsg1 : 1 ≤ sg := by omega
+    have hsg2 : sg + F ≤ B * B := by omega
+    obtain ⟨s1, s2⟩ := sat_eq n (W / B ^ (n - 1)) D 1 (B ^ 3 - sg) (by omega) hD hXB (by rw [← hF]; omega) (by omega)
+    rw [s1]
+    have hdec := tS_dec n 0 D (B ^ n - 1) (by rw [pow_zero, Nat.mul_one]; omega)
+      (by rw [pow_sub_one_mod n (by omega)]; omega)
+    rw [pow_zero, Nat.mul_one, Nat.sub_zero, ← hF] at hdec
+    have hd0 : sumd F 0 = 0 := rfl
+    rw [hd0, Nat.add_zero] at hdec
+    have e2 : B ^ n - 1 - 1 = B ^ n - 2 := by omega
+    rw [e2] at hdec
+    have hr3' : (B ^ 3 - sg + F) % B ^ 3 = F - sg := by
+      have : B ^ 3 - sg + F = (F - sg) + B ^ 3 := by omega
+      rw [this, Nat.add_mod_right, Nat.mod_eq_of_lt (by omega)]
+    constructor
+    · intro _
+      rw [hr3']
+      refine ⟨?_, by omega⟩
+      have hb := (tS_bounds n D (B ^ n - 1) (by omega)).1
+      have hlt := lt_mul_div_succ' W (B ^ (n - 1)) (Bpow_pos _)
+      have hXlt2 : W / B ^ (n - 1) + 1 ≤ tS D (B ^ n - 1) n := by omega
+      have h1 : B ^ (n - 1) * (W / B ^ (n - 1) + 1) ≤ B ^ (n - 1) * tS D (B ^ n - 1) n := Nat.mul_le_mul_left _ hXlt2
+      have e3 : B ^ n = B * B ^ (n - 1) := by rw [← pow_succ']; congr 1; omega
+      rw [e3] at hb
+      have h2 : B * (B ^ (n - 1) * tS D (B * B ^ (n - 1) - 1) n) ≤ B * ((B * B ^ (n - 1) - 1) * D) := by
+        rw [← Nat.mul_assoc]; exact hb
+      have h3 := Nat.le_of_mul_le_mul_left h2 hB
+      rw [← e3] at h3
+      have hPn2 : 2 ≤ B ^ n := by
+        calc 2 ≤ B := hB2
+          _ = B ^ 1 := (pow_one B).symm
+          _ ≤ B ^ n := Nat.pow_le_pow_right hB (by omega)
+      have : B ^ n - 2 + 1 = B ^ n - 1 := by omega
+      rw [this]; omega
+    · intro h; exfalso
+      apply h
+      have : B * B * (B - 1) ≤ B ^ 3 - sg := by omega
+      have : B - 1 ≤ (B ^ 3 - sg) / B ^ 2 := by
+        rw [Nat.le_div_iff_mul_le (Bpow_pos 2), B2']
+        rw [Nat.mul_comm]; exact this
+      rw [B_eq] at *; omega
+
 end Mpir.DcDivappr
